@@ -19,7 +19,7 @@ class Fail(object):
 
 class Sub(object):
     def __init__(self, name, check, strategy=None, enumerate=None, quick=1000, thorough=None,
-                 shards=None, doc=""):
+                 shards=None, doc="", tiers=("quick", "thorough")):
         self.name = name
         self.check = check
         self.strategy = strategy
@@ -27,6 +27,7 @@ class Sub(object):
         self.budget = {"quick": quick, "thorough": thorough if thorough is not None else quick * 10}
         self.shards = shards
         self.doc = doc
+        self.tiers = tiers
 
 
 class Ctx(object):
